@@ -384,7 +384,8 @@ PLUGS = {
                 project=proj_full, oracles=[], disagreement_is_failure=True),
     'C13': dict(streams=lambda seed, tier: gen.scenarios_cond(seed, sizes(tier, 2000, 30000)) + gen.scenarios_cond_twins(seed, sizes(tier, 600, 8000)),
                 project=proj_full, oracles=['c13'], disagreement_is_failure=True),
-    'C14': dict(streams=lambda seed, tier: with_oracles(gen.scenarios_construct(seed, sizes(tier, 1500, 25000)), ['c14']),
+    'C14': dict(streams=lambda seed, tier: with_oracles(gen.scenarios_construct(seed, sizes(tier, 1500, 25000)), ['c14']) +
+                gen.scenarios_tuplelayout(seed + 2, sizes(tier, 400, 6000)),
                 project=proj_full, oracles=['c14'], disagreement_is_failure=True),
     'C15': dict(streams=lambda seed, tier: gen.scenarios_process(seed, sizes(tier, 800, 12000), generic_share=0.0) +
                 [s for s in conv_stream(seed, sizes(tier, 3000, 40000), 'from_data', []) if '"cls"' in json.dumps(s['ty'])] +
